@@ -852,9 +852,27 @@ fn cmp_uncoercible_numbers(left: &Value, right: &Value) -> Ordering {
     }
 }
 
+/// Values are ordered by kind first.  Sequences and iterables can compare
+/// equal to each other and share a rank so that the ordering stays consistent
+/// with equality.
+fn kind_rank(kind: ValueKind) -> u8 {
+    match kind {
+        ValueKind::Undefined => 0,
+        ValueKind::None => 1,
+        ValueKind::Bool => 2,
+        ValueKind::Number => 3,
+        ValueKind::String => 4,
+        ValueKind::Bytes => 5,
+        ValueKind::Seq | ValueKind::Iterable => 6,
+        ValueKind::Map => 7,
+        ValueKind::Plain => 8,
+        ValueKind::Invalid => 9,
+    }
+}
+
 impl Ord for Value {
     fn cmp(&self, other: &Self) -> Ordering {
-        let kind_ordering = self.kind().cmp(&other.kind());
+        let kind_ordering = kind_rank(self.kind()).cmp(&kind_rank(other.kind()));
         if matches!(kind_ordering, Ordering::Less | Ordering::Greater) {
             return kind_ordering;
         }
